@@ -530,12 +530,8 @@ INHERENT_SHAPE = (
     "If(test=Attribute(value=Name(id='self', ctx=Load()), attr='constraints', ctx=Load()), body=[Expr(value=Yield(value=Call(func=Name(id='IsOneOf', ctx=Load()), args=[Attribute(value=Name(id='self', ctx=Load()), attr='typevar', ctx=Load()), Attribute(value=Name(id='self', ctx=Load()), attr='constraints', ctx=Load())], keywords=[])))], orelse=[])]"
 )
 
-TV_CAN_ASSIGN_SHAPE = (
-    "[If(test=Compare(left=Name(id='self', ctx=Load()), ops=[Eq()], comparators=[Name(id='other', ctx=Load())]), body=[Return(value=Dict(keys=[], values=[]))], orelse=[]), "
-    "If(test=Call(func=Name(id='isinstance', ctx=Load()), args=[Name(id='other', ctx=Load()), Name(id='TypeVarValue', ctx=Load())], keywords=[]), body=[Assign(targets=[Name(id='bounds', ctx=Store())], value=List(elts=[Starred(value=Call(func=Attribute(value=Name(id='self', ctx=Load()), attr='get_inherent_bounds', ctx=Load()), args=[], keywords=[]), ctx=Load()), Starred(value=Call(func=Attribute(value=Name(id='other', ctx=Load()), attr='get_inherent_bounds', ctx=Load()), args=[], keywords=[]), ctx=Load())], ctx=Load()))], "
-    "orelse=[Assign(targets=[Name(id='bounds', ctx=Store())], value=List(elts=[Call(func=Name(id='LowerBound', ctx=Load()), args=[Attribute(value=Name(id='self', ctx=Load()), attr='typevar', ctx=Load()), Name(id='other', ctx=Load())], keywords=[]), Starred(value=Call(func=Attribute(value=Name(id='self', ctx=Load()), attr='get_inherent_bounds', ctx=Load()), args=[], keywords=[]), ctx=Load())], ctx=Load()))]), "
-    "Return(value=Call(func=Attribute(value=Name(id='self', ctx=Load()), attr='make_bounds_map', ctx=Load()), args=[Name(id='bounds', ctx=Load()), Name(id='other', ctx=Load()), Name(id='ctx', ctx=Load())], keywords=[]))]"
-)
+# shape after repo_fixes/C06-empty-collection-lower-bound.diff (the `elif _is_unreachable(other)` branch)
+TV_CAN_ASSIGN_SHAPE = "[If(test=Compare(left=Name(id='self', ctx=Load()), ops=[Eq()], comparators=[Name(id='other', ctx=Load())]), body=[Return(value=Dict(keys=[], values=[]))], orelse=[]), If(test=Call(func=Name(id='isinstance', ctx=Load()), args=[Name(id='other', ctx=Load()), Name(id='TypeVarValue', ctx=Load())], keywords=[]), body=[Assign(targets=[Name(id='bounds', ctx=Store())], value=List(elts=[Starred(value=Call(func=Attribute(value=Name(id='self', ctx=Load()), attr='get_inherent_bounds', ctx=Load()), args=[], keywords=[]), ctx=Load()), Starred(value=Call(func=Attribute(value=Name(id='other', ctx=Load()), attr='get_inherent_bounds', ctx=Load()), args=[], keywords=[]), ctx=Load())], ctx=Load()))], orelse=[If(test=Call(func=Name(id='_is_unreachable', ctx=Load()), args=[Name(id='other', ctx=Load())], keywords=[]), body=[Assign(targets=[Name(id='bounds', ctx=Store())], value=List(elts=[Starred(value=Call(func=Attribute(value=Name(id='self', ctx=Load()), attr='get_inherent_bounds', ctx=Load()), args=[], keywords=[]), ctx=Load())], ctx=Load()))], orelse=[Assign(targets=[Name(id='bounds', ctx=Store())], value=List(elts=[Call(func=Name(id='LowerBound', ctx=Load()), args=[Attribute(value=Name(id='self', ctx=Load()), attr='typevar', ctx=Load()), Name(id='other', ctx=Load())], keywords=[]), Starred(value=Call(func=Attribute(value=Name(id='self', ctx=Load()), attr='get_inherent_bounds', ctx=Load()), args=[], keywords=[]), ctx=Load())], ctx=Load()))])]), Return(value=Call(func=Attribute(value=Name(id='self', ctx=Load()), attr='make_bounds_map', ctx=Load()), args=[Name(id='bounds', ctx=Load()), Name(id='other', ctx=Load()), Name(id='ctx', ctx=Load())], keywords=[]))]"
 
 MAKE_BOUNDS_MAP_SHAPE = (
     "[Assign(targets=[Name(id='bounds_map', ctx=Store())], value=Dict(keys=[Attribute(value=Name(id='self', ctx=Load()), attr='typevar', ctx=Load())], values=[Name(id='bounds', ctx=Load())])), "
